@@ -18,7 +18,7 @@ from cryptoparser.common.base import (
     StringEnumParsable,
     VariantParsable
 )
-from cryptoparser.common.exception import InvalidType
+from cryptoparser.common.exception import InvalidType, NotEnoughData
 
 from cryptoparser.common.field import (
     FieldValueComponentParsable,
@@ -451,6 +451,10 @@ class DnsRecordTxtValueSpfModifierKnownBase(FieldValueComponentParsable):
         raise NotImplementedError()
 
     @classmethod
+    def _check_name(cls, name):
+        cls._check_name_insensitive(name)
+
+    @classmethod
     def get_canonical_name(cls):
         return cls.get_modifier().value.code
 
@@ -490,11 +494,13 @@ class DnsRecordTxtValueSpfDirectiveBase(ParsableBase, Serializable):
         except InvalidValue:
             pass
 
-        mechanism = cls.get_mechanism()
+        mechanism_name = cls.get_mechanism().value.code
         try:
-            parser.parse_string('mechanism', mechanism.value.code)
-        except InvalidValue as e:
+            parser.parse_string_by_length('mechanism', len(mechanism_name), len(mechanism_name))
+        except (InvalidValue, NotEnoughData) as e:
             six.raise_from(InvalidType, e)
+        if parser['mechanism'].lower() != mechanism_name:  # mechanism names are case-insensitive
+            raise InvalidType()
 
         return parser
 
@@ -887,6 +893,8 @@ class DnsRecordTxtValueSpf(ParsableBase, Serializable):
         terms = []
         while parser.unparsed_length:
             parser.parse_separator(' ')
+            if not parser.unparsed_length:  # trailing spaces are allowed
+                break
 
             try:
                 parser.parse_parsable('term', DnsRecordTxtValueSpfVariantParsable)
